@@ -18,6 +18,7 @@ import (
 	"strconv"
 	"strings"
 	"sync"
+	"sync/atomic"
 	"time"
 
 	"github.com/inbucket/inbucket/v3/pkg/config"
@@ -57,6 +58,22 @@ type smtpEnv struct {
 	hookMail   map[string]hookAns     // by MAIL address
 	hookRcpt   map[string]hookAns     // by candidate RCPT address
 	hookStored map[string]inboundRepl // by subject
+	failBoxes  []string               // mailboxes whose AddMessage fails
+}
+
+// faultyStore fails AddMessage for chosen mailboxes (an I/O fault of the back-end); everything else passes through.
+type faultyStore struct {
+	storage.Store
+	fail map[string]bool
+}
+
+var errInjected = fmt.Errorf("injected store fault")
+
+func (f faultyStore) AddMessage(m storage.Message) (string, error) {
+	if f.fail[m.Mailbox()] {
+		return "", errInjected
+	}
+	return f.Store.AddMessage(m)
 }
 
 type smtpStack struct {
@@ -124,7 +141,15 @@ func (e *smtpEnv) build() (*smtpStack, error) {
 		return nil, err
 	}
 	ap := &policy.Addressing{Config: root}
-	mgr := &message.StoreManager{AddrPolicy: ap, Store: st, ExtHost: host}
+	var mst storage.Store = st
+	if len(e.failBoxes) > 0 {
+		fm := map[string]bool{}
+		for _, b := range e.failBoxes {
+			fm[b] = true
+		}
+		mst = faultyStore{Store: st, fail: fm}
+	}
+	mgr := &message.StoreManager{AddrPolicy: ap, Store: mst, ExtHost: host}
 	srv := smtp.NewServer(root.SMTP, mgr, ap, host)
 	return &smtpStack{env: e, root: root, ap: ap, host: host, store: st, srv: srv}, nil
 }
@@ -331,6 +356,80 @@ func (st *smtpStack) play(lines [][]byte, cut int, awaitLast bool) dialogueResul
 	return res
 }
 
+// playPipelined writes the whole dialogue at once (as a pipelining client does) and only then reads; the connection is
+// closed once the server has been silent for a while after everything was written.
+func (st *smtpStack) playPipelined(lines [][]byte) dialogueResult {
+	res := dialogueResult{noReply: -1}
+	client, server := net.Pipe()
+	done := make(chan struct{})
+	go func() {
+		defer close(done)
+		defer func() {
+			if r := recover(); r != nil {
+				res.panicked = fmt.Sprint(r)
+				server.Close()
+			}
+		}()
+		st.srv.VerifServe(1, server)
+	}()
+	ch := make(chan smtpReply, 4096)
+	go readReplies(client, ch)
+	var all []byte
+	for _, l := range lines {
+		all = append(all, l...)
+	}
+	wrote := make(chan struct{})
+	go func() {
+		client.SetWriteDeadline(time.Now().Add(10 * time.Second))
+		client.Write(all)
+		close(wrote)
+	}()
+	res.written = all
+	idle := 3 * time.Second // only reached when the server neither answers nor ends: pipelined dialogues end with QUIT
+	if atomic.LoadInt32(&pipeStalls) > 3 {
+		idle = 300 * time.Millisecond
+	}
+	written := false
+loop:
+	for {
+		select {
+		case r, ok := <-ch:
+			if !ok {
+				break loop
+			}
+			res.replies = append(res.replies, r)
+		case <-wrote:
+			written = true
+			wrote = nil
+		case <-done:
+			break loop
+		case <-time.After(idle):
+			if written {
+				atomic.AddInt32(&pipeStalls, 1)
+				break loop
+			}
+		}
+	}
+	client.Close()
+	select {
+	case <-done:
+	case <-time.After(8 * time.Second):
+		res.wedged = true
+	}
+	for r := range ch {
+		res.replies = append(res.replies, r)
+	}
+	res.awaited = len(res.replies)
+	res.lineReply = make([]int, len(lines))
+	for i := range res.lineReply {
+		res.lineReply[i] = -1
+	}
+	res.dump, res.dumpMsgs = st.dumpStore()
+	return res
+}
+
+var pipeStalls int32
+
 var tsRE = regexp.MustCompile(`(\r\n  for <[^\r\n]*?>; )[^\r\n]*\r\n`)
 
 // dumpStore lists every mailbox (sorted by name) with its messages in order, in the driver's encoding, with the
@@ -519,9 +618,9 @@ func (st *smtpStack) modelLine(stream []byte, blocks [][]byte, budget string) st
 		}
 		return strings.Join(l, sep)
 	}
-	return fmt.Sprintf("run naming=%s %s maxrcpt=%d maxbytes=%d cap=%d domain=%s rhost=%s ts=%s ip=%s re=%s args=%s hdr=%s hookmail=%s hookrcpt=%s hookstored=%s budget=%s inp=%s",
+	return fmt.Sprintf("run naming=%s %s maxrcpt=%d maxbytes=%d cap=%d domain=%s rhost=%s ts=%s ip=%s re=%s args=%s hdr=%s hookmail=%s hookrcpt=%s hookstored=%s fail=%s budget=%s inp=%s",
 		e.naming, e.pol.line(), e.maxRcpt, e.maxBytes, e.cap, core.HexS("inbucket.test"), core.HexS("pipe"), core.HexS("TS"), join(ips, ","),
-		join(reEntries, ";"), join(argEntries, ";"), join(hdrEntries, ";"), hookTable(e.hookMail), hookTable(e.hookRcpt), join(hs, ";"), budget, core.Hex(stream))
+		join(reEntries, ";"), join(argEntries, ";"), join(hdrEntries, ";"), hookTable(e.hookMail), hookTable(e.hookRcpt), join(hs, ";"), core.HexList(e.failBoxes), budget, core.Hex(stream))
 }
 
 // hdrOracle: what enmime makes of the block's headers, through the same calls Deliver makes.
@@ -789,6 +888,8 @@ type smtpProfile struct {
 	withCap   bool
 	namings   []string
 	noHdrErrs bool
+	pipelined bool // half of the dialogues are sent in one write (pipelining client)
+	faults    bool // inject AddMessage failures for some destination mailboxes
 }
 
 func randHook(r *rand.Rand) hookAns {
@@ -845,15 +946,16 @@ func fieldOf(ans, name string) string {
 }
 
 type smtpCase struct {
-	env    *smtpEnv
-	d      smtpDialogue
-	cut    int
-	await  bool
-	stream []byte
+	env       *smtpEnv
+	d         smtpDialogue
+	cut       int
+	await     bool
+	stream    []byte
+	pipelined bool
 }
 
 func (sc smtpCase) describe() []string {
-	c := []string{fmt.Sprintf("naming=%s maxrcpt=%d maxbytes=%d cap=%d cut=%d await=%v", sc.env.naming, sc.env.maxRcpt, sc.env.maxBytes, sc.env.cap, sc.cut, sc.await),
+	c := []string{fmt.Sprintf("naming=%s maxrcpt=%d maxbytes=%d cap=%d cut=%d await=%v pipelined=%v failing-mailboxes=%q", sc.env.naming, sc.env.maxRcpt, sc.env.maxBytes, sc.env.cap, sc.cut, sc.await, sc.pipelined, sc.env.failBoxes),
 		fmt.Sprintf("policy=%+v", sc.env.pol), fmt.Sprintf("hookmail=%v hookrcpt=%v hookstored=%v", sc.env.hookMail, sc.env.hookRcpt, sc.env.hookStored)}
 	for _, l := range linesOfStream(sc.stream) {
 		if len(l) > 200 {
@@ -878,7 +980,12 @@ func runSmtpCase(c *core.Ctx, m *core.Model, sc *smtpCase) (*dialogueResult, *sm
 		c.Note("stack build failed: %v", err)
 		return nil, nil
 	}
-	res := st.play(sc.d.lines, sc.cut, sc.await)
+	var res dialogueResult
+	if sc.pipelined {
+		res = st.playPipelined(sc.d.lines)
+	} else {
+		res = st.play(sc.d.lines, sc.cut, sc.await)
+	}
 	sc.stream = res.written
 	if res.panicked != "" {
 		c.Fail("no-panic", sc.describe(), "SMTP session goroutine panicked: "+res.panicked, "")
@@ -911,6 +1018,9 @@ func runSmtpCase(c *core.Ctx, m *core.Model, sc *smtpCase) (*dialogueResult, *sm
 	}
 	if sc.cut < 0 && sc.await && len(got) != len(want) {
 		okPrefix = false
+	}
+	if sc.pipelined {
+		okPrefix = strings.Join(got, " ") == strings.Join(want, " ")
 	}
 	if !okPrefix {
 		c.Diverge("smtp-replies", sc.describe(), strings.Join(got, " "), strings.Join(want, " ")+"   ["+ans[:min(len(ans), 300)]+"]")
